@@ -397,6 +397,10 @@ def run(ctx):
             ctx.sample({"flavour": flav, "ops": ops[:10], "segments": len(segs)})
         if len(ctx.failures) > 5:
             break
+    # the tie of the handle frame theorems (Props/Properties_C18.v H.C18_handle_*) to adf_file.c: call-level correspondence of Model/FileIO
+    # with the library, plus: every device write of a handle call outside the model's universe is root / bitmap / directory cache
+    from . import fileiocorr
+    fileiocorr.run(ctx, 30 if ctx.tier == "quick" else 1000)
     rule = ("random interleavings over up to 4 handles and 13 names with deletes (freed blocks get reused) on all six flavours; every device write of every operation is "
             "classified against the ownership map of the image as it was just before that write sequence started, replayed write by write (= every prefix); bitmap flag "
             "order checked inside each sequence; evaluations = device writes classified; distinct = distinct history")
